@@ -17,8 +17,9 @@ Transliteration of the checkpoint store:
 Strings and file names are byte lists (Rust `String`s are UTF-8 byte sequences; every operation the code
 performs on them — prefix/suffix stripping, digit tests, parsing — is byte-wise).
 
-Un-prefixed definitions follow the CURRENT code (after the three `fix:` commits: decode limit,
-strict `checkpoint_<id>_<decimal>.bin` names, directory scans take regular files only). `Legacy.*` is the code
+Un-prefixed definitions follow the CURRENT code (after the five `fix:` commits: decode limit,
+strict `checkpoint_<id>_<decimal>.bin` names, directory scans take regular files only, read cap
+`MAX_CHECKPOINT_FILE_BYTES`, single-component file names). `Legacy.*` is the code
 before them. The model file system holds REGULAR FILES only: since the third fix a sub-directory of the checkpoint
 directory is invisible to every scan whatever its name (`Legacy.cleanupWithDirs` / `Legacy.latestWithDirs` say what
 happened before).
@@ -366,6 +367,62 @@ def clear (pid : Bytes) (fs : FS) : FS := clearWith (isOwn pid) fs
 def save (max : Option Nat) (fs : FS) (s : State) : FS :=
   cleanup max s.pipelineId (write fs (fileName s) (encode s))
 
+/-! ## the file on disk: `File::open(path)?.take(MAX_CHECKPOINT_FILE_BYTES).read_to_end(&mut encoded)` -/
+
+/-- the bytes `load_checkpoint` reads of a file: at most `cap` (`none` = the whole file — the code before the
+    read-cap `fix:`) -/
+def readPart (cap : Option Nat) (file : Bytes) : Bytes :=
+  match cap with
+  | some c => file.take c
+  | none => file
+
+/-- `load_checkpoint(path)` on a file with content `file`: the read buffer ends up holding `readPart cap file`
+    (its size is requested from the allocator like every other buffer: `alloc`; for this one buffer std uses
+    `try_reserve`, so exhausting memory is `Err("Failed to read checkpoint")` rather than an abort — both are the
+    "unbounded allocation" of the property and share the class `allocFail`), then the decoder runs on that buffer. -/
+def loadFile (H : Bytes → Bytes) (cfg : Cfg) (cap : Option Nat) (file : Bytes) : Except DecErr State :=
+  andThen (alloc cfg (readPart cap file).length) fun _ => load H cfg (readPart cap file)
+
+/-! ## which names the file system (and, since the second `fix:`, `save_checkpoint` itself) accepts -/
+
+def slash : UInt8 := 47
+
+/-- a usable entry name of the checkpoint directory: one path component (no `/` — checked by `save_checkpoint`
+    via `Path::components` since the `fix:`; before, the OS resolved it as a sub-directory path), no NUL
+    (`File::create` → `InvalidInput`), at most `nameMax` bytes (`ENAMETOOLONG`; `NAME_MAX` = 255 on Linux file
+    systems, measured by the harness on the scratch file system of the run) -/
+def nameOK (nameMax : Nat) (name : Name) : Bool :=
+  !name.contains slash && !name.contains 0 && decide (name.length ≤ nameMax)
+
+/-- the checkpoint directory as the manager finds it -/
+inductive Dir
+  | missing            -- the configured path does not exist
+  | notDir             -- the configured path exists and is not a directory (`read_dir` / `File::create` fail)
+  | dir (fs : FS)      -- a directory holding these regular files (symlinks to regular files included)
+
+/-- `save_checkpoint` against the real directory: `Err` (nothing created, nothing deleted) when the file name is
+    unusable or the directory is not there; otherwise `save`. `enabled` is part of the manager's configuration and
+    `save_checkpoint` never reads it (only `new` does: it creates the directory iff enabled). -/
+def saveChecked (_enabled : Bool) (nameMax : Nat) (max : Option Nat) (d : Dir) (s : State) : Option FS :=
+  match d with
+  | .dir fs => if nameOK nameMax (fileName s) then some (save max fs s) else none
+  | _ => none
+
+/-- `find_latest_checkpoint`: disabled ⇒ `Ok(None)`; `!directory.exists()` ⇒ `Ok(None)`; `read_dir` error ⇒ `Err`
+    (`none` here); else the scan -/
+def latestChecked (enabled : Bool) (pid : Bytes) (d : Dir) : Option (Option Name) :=
+  if !enabled then some none
+  else match d with
+    | .missing => some none
+    | .notDir => none
+    | .dir fs => some (latest true pid fs)
+
+/-- `clear_checkpoints`: `read_dir` error ⇒ `Err` (`none`), whatever `enabled` says -/
+def clearChecked (pid : Bytes) (d : Dir) : Option FS :=
+  match d with
+  | .dir fs => some (clear pid fs)
+  | _ => none
+
 /-! ## `should_checkpoint` (clock passed in; times in nanoseconds) -/
 
 inductive Policy
@@ -439,6 +496,18 @@ def cleanupWithDirs (max : Option Nat) (pid : Bytes) (dirs : List Name) (fs : FS
 
 def latestWithDirs (pid : Bytes) (dirs : List Name) (fs : FS) : Option Name :=
   ((names fs ++ dirs).filter (isOwn pid) |>.mergeSort (fun a b => decide (sortKey (pfx pid) a ≤ sortKey (pfx pid) b))).getLast?
+
+/-- before the read-cap `fix:`: `read_to_end` of the WHOLE file, whatever its size, before any decode limit applied -/
+def loadFile (H : Bytes → Bytes) (cfg : Cfg) (file : Bytes) : Except DecErr State :=
+  IB.Checkpoint.loadFile H cfg none file
+
+/-- before the single-component `fix:`: a `/` in the file name was resolved by the OS. `sub` = the regular files of
+    the sub-directory `checkpoint_<part of the id before the slash>` when it exists: the new file is created THERE
+    (name = the part after the last `/`), and the clean-up that follows scans the PARENT with the prefix
+    `checkpoint_<whole id>_`, which no entry name (a single component) can start with: nothing is ever deleted.
+    Returns (parent after, sub-directory after). -/
+def saveSlash (max : Option Nat) (parent sub : FS) (leaf : Name) (s : State) : FS × FS :=
+  (cleanup max s.pipelineId parent, write sub leaf (encode s))
 
 end Legacy
 
